@@ -848,7 +848,9 @@ fn variance_range_oracle(oi: usize, h: &dyn Hist, m: &Model, st: &mut Stats) -> 
     let vs = h.variances();
     for i in 0..m.counts.len() {
         for (name, v) in [("variance", h.variance(i)), ("variances", vs[i])] {
-            if !(v >= 0.0 && v <= t / 4.0 * (1.0 + 4.0 * U)) {
+            // "[0, total/4] up to rounding": a few ulps of the bin count on either side
+            let slack = 8.0 * U * (m.counts[i] as f64).max(1.0);
+            if !(v >= -slack && v <= t / 4.0 * (1.0 + 4.0 * U) + slack) {
                 return Err(Viol::new(
                     format!("Histogram:{}:outside_range", name),
                     format!("after op {}: {}({}) = {:e} outside [0, total/4 = {:e}] (count {}, total {})", oi, name, i, v, t / 4.0, m.counts[i], total),
